@@ -13,6 +13,7 @@ import Ladybug.Proofs.C16Lemmas
 import Ladybug.Proofs.C16Idf
 import Ladybug.Proofs.C16Hist
 import Ladybug.Props.C09
+import Ladybug.Model.DDYShapes
 
 namespace DD
 
@@ -161,7 +162,7 @@ theorem C16_hourly_datetimes_on_date (d : Cal.D) (hv : d.valid) :
 /-- The date-times of the header of every `hourly_*` collection (analysis period of the day) are the 24 hours
     of the stated date. -/
 theorem C16_collection_datetimes (d : Cal.D) :
-    collectionDatetimes d = (List.range 24).map fun h => ⟨d.month, d.day, h, 0, false⟩ := rfl
+    collectionDatetimes d = (List.range 24).map fun h => ⟨d.month, d.day, h, 0, d.leap⟩ := rfl
 
 /-- Without daylight saving, the date-times the sky condition evaluates the sun at (`_get_datetimes`, integer
     level) are, for every timestep >= 1 and every step, date-times of the stated date: step `i` is minute
@@ -468,5 +469,166 @@ end ddy
   `ashrae_h` / `ashrae_c`, and the oracle checks the EPW- and STAT-derived days against the header values.
   Theorems `C16_ashrae_heating` / `C16_ashrae_cooling` above state which header entry ends up in which
   attribute.  Which pressure / tau the EPW and STAT classes pass in is checked by the oracle (`header_days`). -/
+
+/-! ### round 4: the `DDY.design_days` setter on every kind of container (Model/DDYShapes.lean, plan
+    regenerated from ddy.py by tools/extract/ddy_setter.py) -/
+
+section shapes
+open Shapes Gen.DDY
+
+/-- The regenerated statement order of the `DDY.design_days` setter: a non-list argument is turned into a list
+    BEFORE anything walks it, the items of that list are type-checked, that list is stored; and `__init__`
+    assigns through the setter.  (Any other order - e.g. checking the items of the argument first and calling
+    `list()` afterwards - does not check: see `C16_ddy_order_matters`.) -/
+theorem C16_ddy_setter_plan :
+    setterPlan = [.materialiseUnlessList, .checkItems, .storeArg, .updateLocations] ∧ initUsesSetter = true := by
+  decide
+
+/-- **The days a DDY holds do not depend on the container kind of the argument**: for a list, any other
+    re-iterable container (tuple, deque, dict view) and a one-shot iterator (generator, map, filter, iter(...))
+    alike, the setter stores exactly the items the argument held when it was handed over, or refuses when one
+    of them is not a design day. -/
+theorem C16_ddy_days_shape_independent {α : Type} (isDay : α → Bool) (arg : Iterable α) :
+    setDays isDay arg = if arg.items.all isDay then .ok arg.items else .error .assert := by
+  unfold setDays setDaysWith
+  rw [C16_ddy_setter_plan.1]
+  cases arg with
+  | container b xs =>
+    cases b <;> by_cases h : xs.all isDay = true <;>
+      simp [runPlan, runStep, Iterable.pass, Iterable.items, h]
+  | oneShot xs =>
+    by_cases h : xs.all isDay = true <;>
+      simp [runPlan, runStep, Iterable.pass, Iterable.items, h]
+
+/-- Two arguments holding the same items give the same DDY, whatever their kinds (the model of the DDY writer
+    takes lists; the correspondence feeds the real class every kind). -/
+theorem C16_ddy_days_same_for_all_shapes {α : Type} (isDay : α → Bool) (a b : Iterable α)
+    (h : a.items = b.items) : setDays isDay a = setDays isDay b := by
+  rw [C16_ddy_days_shape_independent, C16_ddy_days_shape_independent, h]
+
+/-- A refused assignment (an item that is not a design day) keeps the old list of days, for every kind. -/
+theorem C16_ddy_days_refused_preserves {α : Type} (isDay : α → Bool) (old : List α) (arg : Iterable α)
+    (h : arg.items.all isDay = false) : assign isDay old arg = (old, false) := by
+  unfold assign
+  rw [C16_ddy_days_shape_independent]
+  simp [h]
+
+/-- An accepted assignment makes the DDY hold the items of the argument, in order, for every kind. -/
+theorem C16_ddy_days_accepted {α : Type} (isDay : α → Bool) (old : List α) (arg : Iterable α)
+    (h : arg.items.all isDay = true) : assign isDay old arg = (arg.items, true) := by
+  unfold assign
+  rw [C16_ddy_days_shape_independent]
+  simp [h]
+
+/-- Why the order matters: a setter that type-checks the items of its argument first and only then stores
+    `list(argument)` keeps every day of a re-iterable container but NONE of a one-shot iterator (the check has
+    used it up).  This is not the code; it is the neighbouring program the plan theorem excludes. -/
+theorem C16_ddy_order_matters {α : Type} (isDay : α → Bool) (xs : List α) (h : xs.all isDay = true) :
+    setDaysWith [.checkItems, .storeListOfArg] isDay (.oneShot xs) = .ok [] ∧
+    setDaysWith [.checkItems, .storeListOfArg] isDay (.container false xs) = .ok xs := by
+  simp [setDaysWith, runPlan, runStep, Iterable.pass, h]
+
+end shapes
+
+/-! ### round 4: the branches of the case splits, whole-day humidity range, sibling classes -/
+
+/-- The relative-humidity profile hour by hour (helper). -/
+theorem ddHourlyRelHumid_eq_map (m : ℝ) (l : List ℝ) :
+    ddHourlyRelHumid m l = l.map fun db => relHumidFromDbDpt db (if m ≤ db then m else db) := by
+  induction l with
+  | nil => rfl
+  | cons a r ih =>
+    simp only [ddHourlyRelHumid, ddHourlyDewPoint, List.map_cons, List.zip_cons_cons] at ih ⊢
+    rw [ih]
+
+/-- The two branches of `HumidityCondition.hourly_dew_point_values`: an hour whose dry bulb is at or above the
+    day's dew point keeps that dew point; an hour whose dry bulb is below it (the rarely taken saturation
+    branch) has dew point = dry bulb and its relative humidity is exactly 100 %. -/
+theorem C16_dew_point_branches (m db : ℝ) :
+    (m ≤ db → ddHourlyDewPoint m [db] = [m]) ∧
+    (db < m → ddHourlyDewPoint m [db] = [db] ∧ ddHourlyRelHumid m [db] = [100]) := by
+  refine ⟨fun h => by simp [ddHourlyDewPoint, h], fun h => ?_⟩
+  have hn : ¬ m ≤ db := not_le.mpr h
+  refine ⟨by simp [ddHourlyDewPoint, hn], ?_⟩
+  rw [ddHourlyRelHumid_eq_map]
+  simp only [List.map_cons, List.map_nil, if_neg hn]
+  unfold relHumidFromDbDpt
+  simp only []
+  rw [div_self (ne_of_gt (satVapPres_pos _))]
+  norm_num
+
+/-- Relative humidity is positive in every hour of any day (whole profile, not one hour). -/
+theorem C16_rh_pos_day (m : ℝ) (l : List ℝ) : ∀ rh ∈ ddHourlyRelHumid m l, 0 < rh := by
+  intro rh hrh
+  rw [ddHourlyRelHumid_eq_map] at hrh
+  obtain ⟨db, _, rfl⟩ := List.mem_map.mp hrh
+  apply C16_rh_pos m db
+  rw [ddHourlyRelHumid_eq_map]; simp
+
+/-- All 24 hourly relative humidities of a design day lie in (0, 100] when the day's dew point is above
+    freezing and the maximum dry bulb is at most 200 C - for every range >= 0, saturated hours included
+    (lifts `C16_rh_range_water` from one hour to the profile through `C16_profile`). -/
+theorem C16_rh_range_day_water (m mx rng : ℝ) (hm : 0 < m) (hmx : mx ≤ 200) (hr : 0 ≤ rng) :
+    ∀ rh ∈ ddHourlyRelHumid m (hourlyDryBulb mx rng), 0 < rh ∧ rh ≤ 100 := by
+  intro rh hrh
+  rw [ddHourlyRelHumid_eq_map] at hrh
+  obtain ⟨db, hdb, rfl⟩ := List.mem_map.mp hrh
+  have hle := (C16_profile mx rng hr).2.2.1 db hdb
+  apply C16_rh_range_water m db hm (by linarith)
+  rw [ddHourlyRelHumid_eq_map]; simp
+
+/-- All 24 hourly relative humidities lie in (0, 100] on a frost day (maximum dry bulb <= 0 C, dew point above
+    absolute zero), for every range >= 0. -/
+theorem C16_rh_range_day_ice (m mx rng : ℝ) (hm : -273.15 < m) (hmx : mx ≤ 0) (hr : 0 ≤ rng) :
+    ∀ rh ∈ ddHourlyRelHumid m (hourlyDryBulb mx rng), 0 < rh ∧ rh ≤ 100 := by
+  intro rh hrh
+  rw [ddHourlyRelHumid_eq_map] at hrh
+  obtain ⟨db, hdb, rfl⟩ := List.mem_map.mp hrh
+  have hle := (C16_profile mx rng hr).2.2.1 db hdb
+  apply C16_rh_range_ice m db hm (by linarith)
+  rw [ddHourlyRelHumid_eq_map]; simp
+
+/-- The two branches of `ASHRAEClearSky.hourly_sky_cover`: clearness above 1 gives 0 tenths; clearness in
+    [0, 1] gives (1 - clearness) * 10, which lies within 0..10 tenths. -/
+theorem C16_sky_cover_branches (c : ℝ) :
+    (1 < c → ∀ v ∈ clearSkyCover c, v = 0) ∧
+    (0 ≤ c → c ≤ 1 → ∀ v ∈ clearSkyCover c, v = (1 - c) * 10 ∧ 0 ≤ v ∧ v ≤ 10) := by
+  constructor
+  · intro h v hv
+    unfold clearSkyCover at hv
+    have h' : (1.0 : ℝ) < c := by norm_num; exact h
+    rw [if_pos h'] at hv
+    have := List.eq_of_mem_replicate hv
+    rw [this]; norm_num
+  · intro h0 h1 v hv
+    unfold clearSkyCover at hv
+    have h' : ¬ (1.0 : ℝ) < c := by norm_num; exact h1
+    rw [if_neg h'] at hv
+    have := List.eq_of_mem_replicate hv
+    rw [this]
+    refine ⟨by norm_num, ?_, ?_⟩ <;> norm_num <;> nlinarith
+
+section siblings
+variable {ν : Type}
+
+/-- Sibling sky classes agree: the date-times at which the sun is evaluated are a function of the date, the
+    daylight-saving flag and the timestep only - `_SkyCondition`, `ASHRAEClearSky` and `ASHRAETau` (2009 and
+    2017) objects with the same date and flag evaluate the sun at the same date-times (the oracle recomputes
+    the radiation of each class for the stated date, leap-year dates included). -/
+theorem C16_sky_datetimes_same_for_sibling_classes (s₁ s₂ : Sky ν) (hd : s₁.date = s₂.date) (hs : s₁.dst = s₂.dst)
+    (ts : Nat) :
+    skyDatetimesInt skyDayOffset s₁.date s₁.dst ts = skyDatetimesInt skyDayOffset s₂.date s₂.dst ts := by
+  rw [hd, hs]
+
+end siblings
+
+/-- non-vacuity on dates of the leap year: 29 Feb and all 60 timesteps on 31 Dec -/
+example : hourlyDatetimes ⟨2, 29, true⟩ = .ok ((List.range 24).map fun h => ⟨2, 29, h, 0, true⟩) :=
+  C16_hourly_datetimes_on_date _ (by decide)
+
+example : collect (skyDatetimesInt skyDayOffset ⟨12, 31, true⟩ false 60) =
+    .ok ((List.range (24 * 60)).map fun i => atMinute ⟨12, 31, true⟩ (60 * i / 60 + if 60 = 1 then 30 else 0)) :=
+  C16_sky_datetimes_on_date _ (by decide) 60 (by decide)
+
 
 end DD
